@@ -2,6 +2,8 @@ package storechk
 
 import (
 	"bytes"
+	"encoding/base64"
+	"encoding/json"
 	"fmt"
 	"sort"
 	"sync"
@@ -75,6 +77,9 @@ func GenCProg(r *sim.Rand) CProg {
 			o = COp{Op: "has", Key: B(cAlpha[r.Intn(len(cAlpha))])}
 		case x < 48:
 			o = COp{Op: "set", Key: B(cAlpha[r.Intn(len(cAlpha))]), Val: fmt.Sprintf("v%d", i)}
+			if r.Chance(8) {
+				o.Val = "" // a zero-length value (legal; only nil is refused)
+			}
 		case x < 60:
 			o = COp{Op: "del", Key: B(cAlpha[r.Intn(len(cAlpha))])}
 		case x < 70:
@@ -102,6 +107,9 @@ func GenCProg(r *sim.Rand) CProg {
 			} else {
 				o = COp{Op: "write"}
 			}
+		}
+		if p.Parent != "iavl" && r.Chance(5) && (o.Op == "get" || o.Op == "has" || o.Op == "set" || o.Op == "del") {
+			o.Key = B("") // the zero-length key (a prefix store's key equal to its prefix)
 		}
 		p.Ops = append(p.Ops, o)
 		if o.Op == "write" && r.Chance(60) {
@@ -651,6 +659,123 @@ func RunCMProg(p *CMProg, rep Reporter) {
 			rep.Count("c15.cachemulti.discards", 1)
 			if d := diffContent(model, in.dump(h)); d != "" {
 				rep.Violate("C15", "cachemulti-discard-had-effect", fmt.Sprintf("round %d: a discarded cache multistore changed the root: %s", ri, d))
+			}
+		}
+	}
+}
+
+// ---- tracing through cache multistores (C16: "the trace records every operation in order") ------------------------
+
+type traceRec struct {
+	Operation string `json:"operation"`
+	Key       string `json:"key"`
+	Value     string `json:"value"`
+}
+
+// RunCMTrace: a rootmulti store with a tracer set hands out cache multistores (one or two levels) whose stores — IAVL
+// and transient — are traced. Reference: at every Write of a level, each store flushes its dirty keys in ascending order,
+// one "write"/"delete" record per key with the key and the flushed value; a key written through two levels is recorded
+// twice (once per flush). Read records are not judged (they depend on what each level has cached). Keys carry their
+// store index, so records can be attributed although cachemulti flushes its stores in map order.
+func RunCMTrace(p *CMProg, rep Reporter) {
+	h := &MSHist{NStores: p.NStores, Pruning: &[2]int64{0, 1}}
+	in := openMS(dbm.NewMemDB(), h)
+	var buf bytes.Buffer
+	in.rs.SetTracer(&buf)
+	in.rs.SetTracingContext(stypes.TraceContext(map[string]interface{}{"blockHeight": 7}))
+	if err := in.rs.LoadLatestVersion(); err != nil {
+		return
+	}
+	storeOf := func(i int) stypes.StoreKey {
+		if i >= p.NStores {
+			return in.tkey
+		}
+		return in.keys[i]
+	}
+	for ri, ops := range p.Rounds {
+		cms := in.rs.CacheMultiStore()
+		target := cms
+		levels := 1
+		if p.Nested[ri] {
+			target = cms.CacheMultiStore()
+			levels = 2
+		}
+		// dirty sets per store: last operation per key
+		type last struct {
+			del bool
+			val string
+		}
+		dirty := map[int]map[string]last{}
+		for _, o := range ops {
+			key := fmt.Sprintf("s%d/%s", o.Store, string(o.Key))
+			st := target.GetKVStore(storeOf(o.Store))
+			if dirty[o.Store] == nil {
+				dirty[o.Store] = map[string]last{}
+			}
+			if o.Del {
+				st.Delete([]byte(key))
+				dirty[o.Store][key] = last{del: true}
+			} else {
+				st.Set([]byte(key), []byte(o.Val))
+				dirty[o.Store][key] = last{val: o.Val}
+			}
+			if len(ops)%3 == 0 {
+				st.Get([]byte(key)) // reads in between: their records are skipped by the judge
+			}
+		}
+		if !p.Commit[ri] {
+			continue
+		}
+		buf.Reset()
+		if levels == 2 {
+			target.Write()
+		}
+		cms.Write()
+		rep.Count("c16.cmtrace.flushes", int64(levels))
+		// parse the records written during the flushes
+		got := map[int][]traceRec{}
+		for _, line := range bytes.Split(buf.Bytes(), []byte("\n")) {
+			if len(line) == 0 {
+				continue
+			}
+			var tr traceRec
+			if json.Unmarshal(line, &tr) != nil {
+				rep.Violate("C16", "cmtrace-unparsable-line", fmt.Sprintf("trace line %q is not a JSON record", line))
+				continue
+			}
+			if tr.Operation != "write" && tr.Operation != "delete" {
+				continue
+			}
+			k, _ := base64.StdEncoding.DecodeString(tr.Key)
+			v, _ := base64.StdEncoding.DecodeString(tr.Value)
+			tr.Key, tr.Value = string(k), string(v)
+			si := -1
+			fmt.Sscanf(tr.Key, "s%d/", &si)
+			got[si] = append(got[si], tr)
+			rep.Count("c16.cmtrace.write_records", 1)
+		}
+		for si, d := range dirty {
+			var keys []string
+			for k := range d {
+				keys = append(keys, k)
+			}
+			sort.Strings(keys)
+			var want []traceRec
+			for l := 0; l < levels; l++ {
+				for _, k := range keys {
+					if d[k].del {
+						want = append(want, traceRec{Operation: "delete", Key: k})
+					} else {
+						want = append(want, traceRec{Operation: "write", Key: k, Value: d[k].val})
+					}
+				}
+			}
+			kind := "iavl"
+			if si >= p.NStores {
+				kind = "transient"
+			}
+			if fmt.Sprint(got[si]) != fmt.Sprint(want) {
+				rep.Violate("C16", fmt.Sprintf("cmtrace-flush-records/%s/levels=%d", kind, levels), fmt.Sprintf("round %d: flushing %d level(s) of cache multistore over a traced root: %s store %d recorded %v, the flushed operations are %v", ri, levels, kind, si, got[si], want))
 			}
 		}
 	}
